@@ -90,6 +90,13 @@ CHECKS = {
         design_ref="3/C07",
         note="Trusts TLC and tag-based destination detection; pipelines of length <= 2; three alias/capture mis-routes are known findings.",
     ),
+    "C04": dict(
+        category="model_checking",
+        technique="TLA+ spec ArgAssembly (atom kinds x payload classes -> expected argv with per-element treatment) checked by TLC; atom sequences concretised with pool strings, rendered to command lines and run through a recording callable alias and a real child; received argv classified per element and validated against ArgAssemblyTrace by TLC",
+        text="TLC checks Ordered, Multiplicity and VerbatimKinds over every sequence of up to two atoms of the bounded universe (11 atom kinds x 11 payload classes); every single atom with every pool string, pairs and sampled triples are executed for real and the argv seen by the alias and by the child must both equal the spec's expected argv - the quoting-form x delivery-path x rare-character product the example tests do not span.",
+        design_ref="3/C04",
+        note="Trusts TLC and the expansion oracle of the harness ($VERIFVAR, leading ~); fixed pool of ~30 strings; glob-looking words match nothing. One defect (glued injection expanded) is a known finding.",
+    ),
 }
 
 ALL = [f"C{i:02d}" for i in range(1, 21)]
